@@ -259,8 +259,9 @@ def check_route(rep, db, f, inst):
                 rep.violation(rule, site(f), "array conversion does not store exactly one element per iteration", f["loc"], inst)
                 return True
             iv = list(ivs)[0]
-            bound_ok = ("cmp", "<", iv, C(N)) in conds
-            init_ok = any(e.kind == "DECL" and e.b == "i" and e.c == C(0) for e in p.events)
+            bound_ok = q.loop_bound_ok(p, len(p.events), iv, N)
+            lname = iv[-1] if isinstance(iv, tuple) and iv[:1] == ("havoc",) else "i"
+            init_ok = any(e.kind == "DECL" and e.b == lname and e.c == C(0) for e in p.events)
             inc_ok = any(e.kind == "STORE" and e.b == lin("+", iv, C(1)) for e in p.events)
             if not (bound_ok and init_ok and inc_ok):
                 rep.violation(rule, site(f), "the element loop does not run i = 0 .. N-1 (N=%s) in steps of 1" % N, f["loc"], inst)
